@@ -219,6 +219,16 @@ def run_structs(params, tier, acc):
                         if fmt.endswith("s"):
                             if sname == "sv":
                                 continue
+                            # a name longer than the field is cut to the
+                            # field: the bytes after it are not touched
+                            for longname in ("q" * 16, "r" * 17, "s" * 25):
+                                pk = struct.pack(full, longname.encode())
+                                model.mem[(x, y)].write(addr, pk)
+                                judge_op(acc, sim, model,
+                                         dict(case, op="write_field",
+                                              value=longname),
+                                         lambda: mc.write_vcpu_struct_field(
+                                             fname, longname, x, y, p))
                             nv = "ab"
                             packed = struct.pack(full, b"ab")
                         else:
@@ -314,14 +324,15 @@ def run_faults(params, tier, acc):
         if (n % 4 != k) if tier == "quick" else (n != k):
             continue
         for addr in (0x60000000, 0x60000001):
-            case = dict(op=op + "_faults", buffer=8, window=3, address=addr,
-                        length=n)
-            if n:
-                acc.nontrivial += 1
+            for window in (3, 1):
+                case = dict(op=op + "_faults", buffer=8, window=window,
+                            address=addr, length=n)
+                if n:
+                    acc.nontrivial += 1
 
-            def run(ch):
-                one_fault_execution(case, ch, acc)
-            explore(run, bound=bound, budget=300)
+                def run(ch, case=case):
+                    one_fault_execution(case, ch, acc)
+                explore(run, bound=bound, budget=300)
     acc.sample(dict(kind="faults", op=op, k=k, lengths_below=nl,
                     bound=bound))
 
@@ -342,7 +353,8 @@ def one_fault_execution(case, ch, acc):
         return [f]
     sim.fate = fate
     n, addr = case["length"], case["address"]
-    with Session(sim, window=3, n_tries=3, timeout=0.5) as s:
+    with Session(sim, window=case.get("window", 3), n_tries=3,
+                 timeout=0.5) as s:
         model = Model(sim)
         c = dict(case, choices=None)
         if case["op"].startswith("read"):
@@ -403,11 +415,15 @@ def run_faults2(params, tier, acc):
              (("read", 0x60000001, 9), ("write", 0x60000200, 17)),
              (("write", 0x60000000, 20), ("read", 0x60000000, 20)),
              (("write", 0x60000003, 5), ("write", 0x60000103, 21))]
-    case = dict(op="two_ops_faults", ops=[list(o) for o in pairs[k]])
+    n = 0
+    for window in (3, 1):
+        # (window 1 is the controller's default)
+        case = dict(op="two_ops_faults", ops=[list(o) for o in pairs[k]],
+                    window=window)
 
-    def run(ch):
-        two_ops_execution(case, ch, acc)
-    n = explore(run, bound=scope(tier)["faults2_bound"], budget=300)
+        def run(ch, case=case):
+            two_ops_execution(case, ch, acc)
+        n += explore(run, bound=scope(tier)["faults2_bound"], budget=300)
     acc.nontrivial += n
     acc.sample(dict(kind="faults2", ops=case["ops"], executions=n))
 
@@ -427,7 +443,8 @@ def two_ops_execution(case, ch, acc):
             return ["ok", "dup"]
         return [f]
     sim.fate = fate
-    with Session(sim, window=3, n_tries=3, timeout=0.5) as s:
+    with Session(sim, window=case.get("window", 3), n_tries=3,
+                 timeout=0.5) as s:
         model = Model(sim)
         acc.evaluations += 1
         for i, (op, addr, n) in enumerate(case["ops"]):
